@@ -1,7 +1,12 @@
 (* C12 -- Formatting options are cosmetic and indentation equals nesting depth.
    Model: model/FormatHtml.v (should_format, get_indent, html_element), model/OutStream.v.
    Proofs: proofs/FormatSteps.v (element() cut into blocks), proofs/FormatChunks.v (chunk view of
-   the stream), proofs/FormatCosmetic.v, proofs/FormatProofs.v. *)
+   the stream), proofs/FormatCosmetic.v, proofs/FormatProofs.v; the full statements:
+   proofs/FormatLines.v + FormatDepthFull.v + FormatGrows.v (C12_indent_is_depth, C12_close_aligned),
+   proofs/FormatComments.v (C12_comments_additive), proofs/FormatSelfCloseFull.v (C12_selfclose_local).
+   Full: format_cosmetic, level_restored, C12_indent_is_depth, C12_close_aligned, C12_comments_additive,
+   C12_selfclose_local (each on its exact domain, the excluded shapes proved deviating: *_refuted).  The *_partial
+   theorems are the earlier per-invocation statements, kept. *)
 From Coq Require Import ZArith List.
 From Emmet Require Import lib.Base model.MarkupConvert model.OutStream model.FormatHtml proofs.HtmlEvents
      proofs.FormatSteps proofs.FormatProofs proofs.FormatChunks proofs.FormatTabstops proofs.FormatCosmetic proofs.FormatDepth proofs.FormatSelfClose
@@ -37,7 +42,7 @@ Print Assumptions format_cosmetic.
    (Adds x y: x is y with TEXT items inserted).  (When an id / class value contains a field, the comment
    repeats it and the later tabstop numbers shift: hence the hypothesis there.)
    _partial: that the inserted items are exactly the instantiated comment templates and sit right
-   before / after the commented element is not expressed by Sub / Adds. *)
+   before / after the commented element is not expressed by Sub / Adds: see C12_comments_additive below. *)
 Theorem comments_additive_partial c children :
   ws_fmt (oc_fmt c) ->
   Sub (texts (content (html_format (with_comment false c) children)))
@@ -90,7 +95,8 @@ Print Assumptions comments_erase.
    off, the two runs make the same callback invocations one by one (blanks, line breaks and tabstop
    numbers included), except that the mark of one style faces the mark of the other.
    _partial only because of the hypothesis: with output.compactBoolean on the statement is false on the
-   code (selfclose_compact_boolean_refuted below, known finding C12:selfclose-compact-boolean). *)
+   code (selfclose_compact_boolean_refuted below, known finding C12:selfclose-compact-boolean).
+   C12_selfclose_local below adds the number of differing positions and writes the closing chunks out. *)
 Theorem selfclose_local_partial c s1 s2 children :
   oc_compact_boolean c = false ->
   Forall2 (same_chunk c s1 s2) (fchunks (html_format (with_style s1 c) children))
@@ -135,11 +141,10 @@ Print Assumptions C12_selfclose_local.
    units (indent_is_depth_partial), (c) the closing line break after the last formatted child carries L - 1
    units = the units of the parent's own line (close_aligned_partial), (d) the lines of a multi-line value
    and the caret line of an empty leaf carry L + 1 units, the line break before the closing tag L units
-   (value_lines_indent, leaf_lines_indent).  Missing: these are statements per invocation of element(), not
-   one statement quantified over every line-break chunk of the final chunk list (that needs the open-
-   element count read off the output, ambiguous for html-style self-closed tags); line breaks written
-   while a value is wrapped around children (push_snippet path) are not covered and deviate on the code
-   (known finding C12:depth-multiline-field-text-with-children). *)
+   (value_lines_indent, leaf_lines_indent).  _partial: these are statements per invocation of element(); the
+   ONE statement quantified over every line-break chunk of the final chunk list is C12_indent_is_depth /
+   C12_close_aligned below (the open-element count read off the tag chunks with the tree events deciding which
+   opening tags are self-closed; the push_snippet shapes that deviate on the code excluded and refuted). *)
 Theorem level_is_depth c st0 top p n i items s L :
   visits c st0 top p n i items s L -> (lvl s + get_indent c p = lvl st0 + L)%Z.
 Proof. exact (level_is_depth_lemma c st0 top p n i items s L). Qed.
@@ -211,9 +216,11 @@ Print Assumptions leaf_lines_indent.
                          nodes (as the resolver guarantees: implicit tag); no '<' in text; attribute names and values
                          without '<', CR, LF (a line break inside an opening tag is indented by the elements open
                          BEFORE that tag: outside the tag-chunk reading of open_at); and for every named element
-       last_ok           its last child is an element, or is line-broken itself (should_format), or is a text without
-                         children whose last line is not empty (technical: keeps `</name>` from following a pending
-                         empty line; never violated by the parser's output in 21k generated abbreviations)
+       last_ok           its last child is an element, or is line-broken itself (should_format), or is a text that ends
+                         on its line (ends_text: no children and a non-empty last line; or a text without field whose
+                         last child is not line-broken and ends on its line).  Technical: keeps `</name>` from
+                         following a pending empty line; no deviation of the code is known outside it (21k generated
+                         abbreviations with text nodes with children, three inlineBreak values: none)
        snippet_ok        if its text has a field and it has children (push_snippet path): the text has no line break
                          and, when the last child is line-broken, the text ends with that field.
    The shapes excluded by snippet_ok are exactly those on which the code deviates: known finding
